@@ -165,11 +165,22 @@ def run(ctx) -> None:
     assigns = [n for n in walk_no_nested(cv.node) if isinstance(n, ast.Assign) and isinstance(n.targets[0], ast.Tuple)
                and [norm(e) for e in n.targets[0].elts] == [QA, QB] and isinstance(n.value, ast.Tuple)]
     bad = None
+    import copy as _copy
+
+    class _Sides(ast.NodeTransformer):
+        def visit_Name(self, nn):
+            if nn.id in da | {va, pars[2]} or nn.id in db | {vb, pars[4]}:
+                return ast.Name(id="X", ctx=nn.ctx)
+            return nn
     for a in assigns:
         l, r = a.value.elts
         if isinstance(l, ast.Call) and isinstance(r, ast.Call) and norm(l.func) != norm(r.func):
             bad = a
         if isinstance(l, ast.Call) != isinstance(r, ast.Call):
+            bad = a
+        # the two elements are the same expression of their own side's names (an operand scaled, shifted or rounded on one
+        # side only is compared in different units / precisions)
+        if norm(_Sides().visit(_copy.deepcopy(l))) != norm(_Sides().visit(_copy.deepcopy(r))):
             bad = a
     in_match = {id(x) for x in ast.walk(matches[0])}
     pa = [n for n in walk_no_nested(cv.node) if isinstance(n, ast.Assign) and norm(n.targets[0]) in (QA, QB)
@@ -188,7 +199,9 @@ def run(ctx) -> None:
         ctx.ok("R21c", "compare_values: quantity_a and quantity_b are built by the same expressions")
     else:
         ctx.fail("R21c", cv, (bad or cv.node), "compare_values: quantity_a and quantity_b are built by the same expressions",
-                 f"operands are normalised differently: {shapes}")
+                 (f"`{norm(bad)}`: the two operands are not the same expression of their own value and unit (one side is scaled, "
+                  "shifted or converted by hand): the comparison is no longer made between the two physical quantities in a common unit"
+                  if bad is not None else f"operands are normalised differently: {shapes}"))
 
     # ---- R21d
     ctx.rule("R21d", "operands never pass through float")
